@@ -58,3 +58,12 @@ Lemma get_be_16_0 b0 b1 b2 b3 : get_be 16 [b0; b1; b2; b3] 0 4 = Some (b0 * 2 ^ 
 Proof. reflexivity. Qed.
 Lemma get_be_16_2 b0 b1 b2 b3 : get_be 16 [b0; b1; b2; b3] 2 4 = Some (b2 * 2 ^ 8 + (b3 * 2 ^ 0 + 0)).
 Proof. reflexivity. Qed.
+
+(* the iteration functions of the two range loops, named *)
+Definition iterOf (i : string) (body : list sstmt) : Z -> state -> sres :=
+  fun k st' => sexec_seq sexec body (set_int i (TS 64) k st').
+Definition iterIV (i v : string) (t : ty) (l : list Z) (body : list sstmt) : Z -> state -> sres :=
+  fun k st' => match get_idx l k with
+               | Some x => sexec_seq sexec body (set_int v t x (set_int i (TS 64) k st'))
+               | None => None
+               end.
